@@ -67,7 +67,7 @@ class MicroDVDReader(BaseReader):
         return caption_set
 
     def _framestomicro(self, framenum, fps=25.0):
-        return int(framenum / fps * (10 ** 6))
+        return int(framenum * (10 ** 6) / fps)
 
 
 class MicroDVDWriter(BaseWriter):
